@@ -500,12 +500,17 @@ def hdrW (cfg : Cfg) : Array UInt8 :=
 def parOf (cfg : Cfg) : Par :=
   { flags := flags1 cfg, level := cfg.level, lg := cfg.legacy, B := poolSize (blockSizeIndex (flags1 cfg)) }
 
+/-- `Frame.savedBlockSizeIndex` after `Writer.init`: a legacy frame remembers the configured index -/
+def saved1 (w : W) : Nat :=
+  if w.cfg.legacy ∧ blockSizeIndex w.cfg.flags ≠ indexOf Block8Mb then blockSizeIndex w.cfg.flags else w.savedIdx
+
 theorem init_eq (w : W) :
     init w = ({ w with cfg := { w.cfg with flags := flags1 w.cfg }, magicLegacy := w.cfg.legacy, pending := #[],
                        bufSize := (parOf w.cfg).B, cks := XXH.reset w.cks, deferred := none,
+                       savedIdx := saved1 w,
                        sink := (w.sink.write (hdrW w.cfg)).1 },
       (w.sink.write (hdrW w.cfg)).2) := by
-  unfold init hdrW parOf flags1
+  unfold init hdrW parOf flags1 saved1
   by_cases h : w.cfg.legacy = true
   · simp only [h, if_true]
   · simp only [h]
